@@ -28,6 +28,7 @@ import (
 	"github.com/Flowpack/prunner/definition"
 	"github.com/Flowpack/prunner/server"
 	"github.com/Flowpack/prunner/taskctl"
+	"github.com/Flowpack/prunner/zverif/vsched"
 )
 
 type procWorld struct {
@@ -309,6 +310,66 @@ func runC18() procxResult {
 			}
 		}
 	}
+	// a job that waits while the definition gains a pipeline-level env keeps the environment it was accepted with
+	{
+		lateOld := PipeCfg{Conc: 1, QL: -1, Graph: graphOne, Script: map[string][]string{"a": {"sleep 0.3", `printf 'I_LATE=<<%s>>;' "${VL_LATE-UNSET}"`}}}
+		lateNew := lateOld
+		lateNew.Env = map[string]string{"VL_LATE": "from the NEW definition"}
+		pw2 := newProcWorld(mkDefs(map[string]PipeCfg{"late": lateOld}), 0)
+		l1, _ := pw2.r.ScheduleAsync("late", prunner.ScheduleOpts{})
+		l2, _ := pw2.r.ScheduleAsync("late", prunner.ScheduleOpts{}) // queued behind l1
+		pw2.r.ReplaceDefinitions(mkDefs(map[string]PipeCfg{"late": lateNew}))
+		l3, _ := pw2.r.ScheduleAsync("late", prunner.ScheduleOpts{}) // accepted after the reload
+		for i, lj := range []*prunner.PipelineJob{l1, l2, l3} {
+			if lj == nil {
+				continue
+			}
+			pw2.wait(lj.ID, 30*time.Second)
+			out, _ := pw2.output(lj.ID, "a", "stdout")
+			want := "UNSET"
+			if i == 2 {
+				want = "from the NEW definition"
+			}
+			res.Cases++
+			res.Distinct++
+			if got := parseFrames(out)["I_LATE"]; got != want {
+				res.add(fmt.Sprintf("env-across-reload:job%d", i+1), fmt.Sprintf("job %d of a pipeline whose definition gained a pipeline-level variable while the job %s: the task sees %q, want %q", i+1, []string{"ran", "waited", "was not yet accepted"}[i], got, want))
+			}
+		}
+		pw2.close()
+	}
+	// fan-out: many parallel tasks of many jobs, each with its own task-level value
+	{
+		const nJobs, nTasks = 12, 16
+		g := map[string][]string{}
+		sc := map[string][]string{}
+		te := map[string]map[string]string{}
+		for t := 0; t < nTasks; t++ {
+			n := fmt.Sprintf("t%02d", t)
+			g[n] = nil
+			sc[n] = []string{`printf 'I_FAN=<<%s|%s>>;' "$TASK_NAME" "$VF_TASK"`, `printf 'C_FAN=<<'; printenv VF_TASK; printf '>>;'`}
+			te[n] = map[string]string{"VF_TASK": "value-of-" + n}
+		}
+		pw3 := newProcWorld(mkDefs(map[string]PipeCfg{"fan": {Conc: nJobs, QL: -1, Graph: g, Script: sc, TaskEnv: te}}), 0)
+		var fj []*prunner.PipelineJob
+		for i := 0; i < nJobs; i++ {
+			j, _ := pw3.r.ScheduleAsync("fan", prunner.ScheduleOpts{})
+			fj = append(fj, j)
+		}
+		for _, j := range fj {
+			pw3.wait(j.ID, 60*time.Second)
+			for t := 0; t < nTasks; t++ {
+				n := fmt.Sprintf("t%02d", t)
+				out, _ := pw3.output(j.ID, n, "stdout")
+				f := parseFrames(out)
+				res.Cases++
+				if f["I_FAN"] != n+"|value-of-"+n || f["C_FAN"] != "value-of-"+n+"\n" {
+					res.add("env-parallel-tasks", fmt.Sprintf("parallel task %s sees TASK_NAME|VF_TASK = %q and its child process VF_TASK = %q (want its own values)", n, f["I_FAN"], f["C_FAN"]))
+				}
+			}
+		}
+		pw3.close()
+	}
 	// reserved name: refused
 	res.Cases++
 	if errBad == nil {
@@ -552,8 +613,81 @@ func runC19(tier string, part, parts int) procxResult {
 			}
 		}
 	}
+	if part == 0 {
+		runC19Extra(&res)
+	}
 	res.Samples = append(res.Samples, fmt.Sprintf("%d task output specs, e.g. %s; task names %q; every job runs twice concurrently", len(specs), descCmds(specs[len(specs)-1]), c19TaskNames))
 	return res
+}
+
+// runC19Extra: output of tasks that are interrupted, and of jobs that are still running while retention
+// removes other jobs of their pipeline
+func runC19Extra(res *procxResult) {
+	// (1) a cancelled task's output so far is what the store and the API return
+	for _, mode := range []string{"cancel", "fail-fast-sibling"} {
+		g := map[string][]string{"w": nil}
+		sc := map[string][]string{"w": {"printf 'before-the-stop\\n'", "printf 'err-before\\n' >&2", "sleep 30", "printf never"}}
+		if mode == "fail-fast-sibling" {
+			g["f"] = nil
+			sc["f"] = []string{"sleep 0.3", "exit 3"}
+		}
+		pw := newProcWorld(mkDefs(map[string]PipeCfg{"c": {Conc: 1, QL: -1, Graph: g, Script: sc}}), 200*time.Millisecond)
+		j, _ := pw.r.ScheduleAsync("c", prunner.ScheduleOpts{})
+		for i := 0; i < 3000; i++ {
+			if b, err := pw.output(j.ID, "w", "stderr"); err == nil && len(b) > 0 {
+				break
+			}
+			time.Sleep(2 * time.Millisecond)
+		}
+		if mode == "cancel" {
+			_ = pw.r.CancelJob(j.ID)
+		}
+		pw.wait(j.ID, 30*time.Second)
+		_, body := apiGet(pw.h, "GET", "/job/logs?id="+j.ID.String()+"&task=w", "")
+		api, _ := decodeJSON(body).(map[string]interface{})
+		for st, want := range map[string]string{"stdout": "before-the-stop\n", "stderr": "err-before\n"} {
+			res.Cases++
+			res.Distinct++
+			got, _ := pw.output(j.ID, "w", st)
+			if string(got) != want {
+				res.add("interrupted-task-output:store:"+mode, fmt.Sprintf("task stopped by %s: the log store returns %q for %s, the task had written %q", mode, got, st, want))
+			}
+			if as, _ := api[st].(string); as != want {
+				res.add("interrupted-task-output:api:"+mode, fmt.Sprintf("task stopped by %s: the log API returns %q for %s, the task had written %q", mode, as, st, want))
+			}
+		}
+		pw.close()
+	}
+	// (2) retention removes finished jobs while an older job of the pipeline still runs: the running job's logs stay
+	{
+		cfg := PipeCfg{Conc: 3, QL: -1, RetCount: 1, Graph: map[string][]string{"a": nil},
+			Script: map[string][]string{"a": {"printf 'start-%s;' '{{ .n }}'", "sleep {{ .d }}", "printf 'end-%s' '{{ .n }}'"}}}
+		pw := newProcWorld(mkDefs(map[string]PipeCfg{"r": cfg}), 0)
+		ja, _ := pw.r.ScheduleAsync("r", prunner.ScheduleOpts{Variables: map[string]interface{}{"n": "A", "d": "0.8"}})
+		time.Sleep(20 * time.Millisecond)
+		jb, _ := pw.r.ScheduleAsync("r", prunner.ScheduleOpts{Variables: map[string]interface{}{"n": "B", "d": "0"}})
+		time.Sleep(20 * time.Millisecond)
+		jc, _ := pw.r.ScheduleAsync("r", prunner.ScheduleOpts{Variables: map[string]interface{}{"n": "C", "d": "0"}})
+		pw.wait(jb.ID, 10*time.Second)
+		pw.wait(jc.ID, 10*time.Second)
+		pw.r.SaveToStore() // B (older finished) goes, C stays, A is still running
+		pw.wait(ja.ID, 10*time.Second)
+		res.Cases++
+		res.Distinct++
+		got, err := pw.output(ja.ID, "a", "stdout")
+		if err != nil || string(got) != "start-A;end-A" {
+			res.add("running-job-logs-hit-by-retention", fmt.Sprintf("a save removed finished jobs while an older job of the pipeline was still running; afterwards that job's output is %q (err %v), want %q", got, err, "start-A;end-A"))
+		}
+		_, body := apiGet(pw.h, "GET", "/job/logs?id="+ja.ID.String()+"&task=a", "")
+		api, _ := decodeJSON(body).(map[string]interface{})
+		if as, _ := api["stdout"].(string); as != "start-A;end-A" {
+			res.add("running-job-logs-hit-by-retention:api", fmt.Sprintf("the log API returns %q for the job that was running during the save", as))
+		}
+		if _, err := pw.output(jb.ID, "a", "stdout"); err == nil {
+			res.add("removed-job-logs-remain", "the logs of the job removed by retention are still readable")
+		}
+		pw.close()
+	}
 }
 
 func descCmds(cs []chunkSpec) string {
@@ -900,6 +1034,28 @@ func runProcxUnit(u Unit) UnitResult {
 	res.Samples = r.Samples
 	for _, v := range r.Viol {
 		res.Viol = append(res.Viol, FoundViolation{Violation: v, Scenario: u.Name})
+	}
+	if vsched.RaceBuild {
+		// free-running under the race detector: report races between production code only
+		time.Sleep(200 * time.Millisecond)
+		seen := map[string]bool{}
+		n := 0
+		for _, rep := range newRaceLog().poll() {
+			n++
+			if !rep.Prod || strings.Contains(rep.Text, "runtime.Goexit()") {
+				continue
+			}
+			pair := []string{stripLine(rep.A), stripLine(rep.B)}
+			sort.Strings(pair)
+			norm := "race:" + pair[0] + " <-> " + pair[1]
+			if seen[norm] {
+				continue
+			}
+			seen[norm] = true
+			res.Viol = append(res.Viol, FoundViolation{Violation: Violation{Property: u.Prop, Rule: "data-race", Norm: norm,
+				Msg: "the Go race detector reports a data race between task executions:\n" + rep.Text}, Scenario: u.Name})
+		}
+		res.Extra = map[string]int{"race_reports_total": n}
 	}
 	return res
 }
